@@ -90,4 +90,44 @@ example :
   ⟨(T4_2_powerloss_atomic_with_rollback_log Toy.P Toy.L Toy.d0 Toy.hinert Toy.pre Toy.post Toy.m1 Toy.w1
       Toy.hpre Toy.hflushed Toy.hwal Toy.hseq Toy.hpost).1, Toy.old_ne_new⟩
 
+/-- T4.2b the new live records after a commit are the old ones plus the appended record (the meta keeps the start,
+moves the end to the new record; nothing lay beyond the old end). -/
+theorem T4_2b_new_live_records (L : LogParams MetaRec LogRec) (m0 m1 : MetaRec) (l : List LogRec) (r : LogRec)
+    (hs : L.startLive m1 = L.startLive m0) (he : L.endLive m1 = L.recId r)
+    (hr : L.endLive m0 < L.recId r) (hsr : L.startLive m0 ≤ L.recId r)
+    (hl : ∀ x ∈ l, L.recId x ≤ L.endLive m0) :
+    liveRecs L m1 (l ++ [r]) = liveRecs L m0 l ++ [r] :=
+  liveRecs_commit L m0 m1 l r hs he hr hsr hl
+
+/-- T4.2c **the same, started while the previous sync's WAL truncation is still un-synced** (`bitbox` does not fsync
+`truncate_wal` at the end of a sync): the start state is `⟨d0, vol0⟩` with `vol0` holding only WAL truncations, and
+WAL truncations are also accepted anywhere before the meta write (`AllowedPreL'`). -/
+theorem T4_2c_powerloss_atomic_pending_wal_truncation (L : LogParams MetaRec LogRec)
+    (d0 : Disk Content MetaRec WalRec LogRec)
+    (hinert : ∀ b, htView P d0 b = d0.pages File.fHt b)
+    (vol0 : List (Eff Content MetaRec WalRec LogRec)) (hvol0 : ∀ e ∈ vol0, e = Eff.walSet none)
+    (pre post : List (Ev Content MetaRec WalRec LogRec)) (m1 : MetaRec) (w1 : WalRec)
+    (hpre : ∀ ev ∈ pre, EvA (AllowedPreL' P L d0) ev)
+    (hflushed : (run ⟨d0, vol0⟩ pre).vol = [])
+    (hwal : (run ⟨d0, vol0⟩ pre).dur.wal = some w1)
+    (hseq : P.walSeqn w1 = P.seqn m1)
+    (hpost : PostOKL P L (run ⟨d0, vol0⟩ pre).dur m1 w1
+      ⟨applyEff (run ⟨d0, vol0⟩ pre).dur (.setMeta m1), []⟩ post) :
+    (∀ p, p <+: pre ++ ([Ev.eff (.setMeta m1), Ev.fsync File.fMeta] ++ post) →
+       ∀ img, IsImage (run ⟨d0, vol0⟩ p) img →
+         absOfL P L img = absOfL P L d0 ∨
+         absOfL P L img = (absNew P (run ⟨d0, vol0⟩ pre).dur m1 w1, absLog L m1 (run ⟨d0, vol0⟩ pre).dur.log)) ∧
+    (∀ img, IsImage (run ⟨d0, vol0⟩ (pre ++ ([Ev.eff (.setMeta m1), Ev.fsync File.fMeta] ++ post))) img →
+       absOfL P L img = (absNew P (run ⟨d0, vol0⟩ pre).dur m1 w1, absLog L m1 (run ⟨d0, vol0⟩ pre).dur.log)) :=
+  sync_crash_atomic_log_pending P L d0 hinert vol0 hvol0 pre post m1 w1 hpre hflushed hwal hseq hpost
+
+/-- non-vacuity of T4.2c: `Toy.d0p` still holds the previous (applied) WAL, its truncation is pending. -/
+example :
+    ∀ img, IsImage (run ⟨Toy.d0p, Toy.vol0⟩
+        (Toy.pre ++ ([Ev.eff (.setMeta Toy.m1), Ev.fsync File.fMeta] ++ Toy.post))) img →
+      absOfL Toy.P Toy.L img = (absNew Toy.P (run ⟨Toy.d0p, Toy.vol0⟩ Toy.pre).dur Toy.m1 Toy.w1,
+        absLog Toy.L Toy.m1 (run ⟨Toy.d0p, Toy.vol0⟩ Toy.pre).dur.log) :=
+  (T4_2c_powerloss_atomic_pending_wal_truncation Toy.P Toy.L Toy.d0p Toy.hinertp Toy.vol0 Toy.hvol0 Toy.pre Toy.post
+    Toy.m1 Toy.w1 Toy.hprep Toy.hflushedp Toy.hwalp Toy.hseq Toy.hpostp).2
+
 end Nomt.C04
